@@ -168,7 +168,7 @@ def vary_types(rng, tree, p_leaf=0.5, p_num=0.7):
             return t[:3] + [opt]
         return t
     if t[0] == "const":
-        return ["const", rng.choice(X.NUM_TYPES[:-2] + ["Fraction"])] if rng.random() < p_num else t
+        return ["const", rng.choice([x for x in X.NUM_TYPES if x != "np.arange"])] if rng.random() < p_num else t
     if t[0] == "powc":
         k = F(t[2], t[3])
         typ = rng.choice(X.num_types_for(k)) if rng.random() < p_num else None
